@@ -7,6 +7,7 @@ from typing import (
     Mapping,
     Optional,
     Sequence,
+    Set,
     Tuple,
     Type,
     TypeVar,
@@ -20,6 +21,7 @@ from apischema.conversions.visitor import (
 )
 from apischema.discriminators import (
     get_discriminated_parent,
+    get_discriminator,
     get_inherited_discriminator,
 )
 from apischema.json_schema.conversions_resolver import WithConversionsResolver
@@ -57,6 +59,7 @@ class RefsExtractor(ConversionsVisitor, ObjectVisitor, WithConversionsResolver):
         self._rec_guard: Dict[
             Tuple[AnyType, Optional[AnyConversion]], int
         ] = defaultdict(lambda: 0)
+        self._discriminated: Set[AnyType] = set()
 
     def _incr_ref(self, ref: Optional[str], tp: AnyType) -> bool:
         if ref is None:
@@ -135,11 +138,22 @@ class RefsExtractor(ConversionsVisitor, ObjectVisitor, WithConversionsResolver):
         next_conversion: Optional[AnyConversion] = None,
     ):
         ref_types = []
+        # The ref of a discriminated parent is also counted by its subclasses, without
+        # the subclasses union being visited
+        discriminated = (
+            conversion is not None
+            and is_hashable(tp)
+            and get_discriminator(tp) is not None
+        )
         if not dynamic:
             for ref_tp in self.resolve_conversion(tp):
                 ref_types.append(ref_tp)
-                if self._incr_ref(get_type_name(ref_tp).json_schema, ref_tp):
+                if self._incr_ref(get_type_name(ref_tp).json_schema, ref_tp) and (
+                    not discriminated or tp in self._discriminated
+                ):
                     return
+        if discriminated:
+            self._discriminated.add(tp)
         if not is_hashable(tp):
             return super().visit_conversion(tp, conversion, dynamic, next_conversion)
         # 2 because the first type encountered of the recursive cycle can have no ref
